@@ -40,6 +40,31 @@ impl Ctx {
     }
 }
 
+/// periods far beyond any window an indicator could allocate: legal for the allocation-free indicators
+/// (EMA and everything built only from EMAs)
+pub const HUGE_PERIODS: [usize; 6] = [1usize << 31, 1usize << 32, (1usize << 32) + 5, (1usize << 53) + 1, usize::MAX - 1, usize::MAX];
+
+/// parameter sets with a huge period in each period slot of the allocation-free indicators
+pub fn huge_period_params() -> Vec<Params> {
+    use crate::inst::Kind;
+    let mut v = Vec::new();
+    for &big in &HUGE_PERIODS {
+        for kind in [Kind::Ema, Kind::Atr, Kind::Rsi] {
+            v.push(Params::new1(kind, big));
+        }
+        v.push(Params::new1(Kind::Kc, big).with_k(2.0));
+        for kind in [Kind::Macd, Kind::Ppo] {
+            for slot in 0..3 {
+                let mut p = Params { kind, p: [12, 26, 9], k: 0.0 };
+                p.p[slot] = big;
+                v.push(p);
+            }
+        }
+        v.push(Params { kind: Kind::Slow, p: [5, big, 0], k: 0.0 });
+    }
+    v
+}
+
 pub fn ops_json(inputs: &[In]) -> Value {
     Value::Array(inputs.iter().map(|x| x.to_json()).collect())
 }
@@ -144,7 +169,7 @@ pub fn phase(t: usize, n: usize) -> &'static str {
         "warmup"
     } else if t == n {
         "full"
-    } else if t <= 2 * n {
+    } else if t <= n.saturating_mul(2) {
         "wrapped1"
     } else {
         "wrapped2+"
